@@ -72,6 +72,7 @@ package packetio
 
 //@ func NewBuffer() (b *Buffer)
 //@   constructor
+//@   ensures [deadline] b.readDeadline != nil
 //@   ensures [init] b != nil && b.inv() && b.W == 0 && b.R == 0 && b.wr == 0 && b.rd == 0 && !b.closed && b.limitCount == 0 && b.limitSize == 0
 
 //@ func (b *Buffer) Write(packet []byte) (n int, err error)
@@ -153,5 +154,5 @@ package packetio
 //@ lockset C19: Buffer
 
 //@ property C06: NewBuffer, Buffer.grow, Buffer.Write, Buffer.Read, Buffer.Close, Buffer.size, Buffer.available
-//@ property C10: Buffer.Read, Buffer.SetReadDeadline
+//@ property C10: NewBuffer, Buffer.Read, Buffer.SetReadDeadline
 //@ property C07: NewBuffer, Buffer.size, Buffer.available, Buffer.grow, Buffer.Write, Buffer.Read, Buffer.Count, Buffer.Size, Buffer.SetLimitCount, Buffer.SetLimitSize, Buffer.Close
